@@ -284,7 +284,7 @@ theorem parse6_toStr6m (a : Bytes) (ha : a.length = 16) (zd sd mixed : Bool) :
     obtain ⟨Q, hbody, hQdot, hparse⟩ := body_mixed zd sd (groups6 (a.take 12)) hl6 hlt6
     have hf1 : ':' ∉ fmtG zd 1 := goodHex_no (fmtG_good zd 1) (by rw [dv_colon]; decide)
     rw [hbody, rsplit2head_two Q _ _ hf1 hf1]
-    unfold parse6
+    unfold parse6 parse6With
     have hdot : has '.' (Q ++ ':' :: dotted [b0, b1, b2, b3]) = true := by
       rw [has_true_iff]; simp [dotted4_has_dot]
     rw [if_pos hdot, rsplit1_append ':' Q _ (dotted_no_colon _)]
@@ -305,7 +305,7 @@ theorem parse6_toStr6m (a : Bytes) (ha : a.length = 16) (zd sd mixed : Bool) :
     -- plain notation
     simp only [Bool.false_eq_true, if_false]
     obtain ⟨hparse, hdot⟩ := body_parse zd sd (groups6 a) hlen hlt
-    unfold parse6
+    unfold parse6 parse6With
     rw [if_neg (by rw [(has_false_iff '.' _).mpr hdot]; simp), hparse, hgb]
 
 /-- `IPAddr6(a.to_str(zero_drop, section_drop, ipv4)) == a` for every 16-byte address and every option -/
